@@ -2910,6 +2910,7 @@ Message* MessageMap::getNextPoll() {
     return nullptr;
   }
   lock();
+  m_pollMessages.rebuild();  // setPollPriority() may have changed the weight of queued messages
   Message* ret = m_pollMessages.top();
   m_pollMessages.pop();
   if (ret->m_pollOrder > g_lastPollOrder) {
